@@ -21,6 +21,7 @@ RULE = ('(a) IR-level store/load histories through eval_instr/eval_expr: stores 
 RULE += ' Round 6: sequences that cut one value into many windows: push/popf/setcc, pushf/pop, sahf, lahf on loaded flag images; bytes and words of one register or dword combined with each other.'
 RULE += ' Round 7: one cell through differently built addresses: a pointer loaded from memory, adjusted, its slot overwritten, overlapping stores of two widths through it (48 sequences); one sum formed from two register pairs, by lea, by add, scaled, through zero/sign extensions.'
 RULE += ' Round 8: stored values made of several parts (a register after a byte move into it, the flags image, a value loaded from partly written memory) whose low part is overwritten by a narrower store and read back whole.'
+RULE += ' Round 10: the 1+1 histories (and a 2+2 family on the constant base) are repeated with the read-back expressions built once, evaluated on the untouched machine and evaluated again as the same objects after the stores (a watch list), and on a machine built with a func_read callback over the initial memory image.'
 ASSUMPTIONS = ['irsem is the meaning of the IR; memory is flat (segment annotations do not take part in addresses)',
                'valuations keep distinct symbolic bases >= 1 MiB apart and away from constant addresses (no aliasing outside the statement)',
                'results under uninterpreted operators or architecturally undefined values are not compared']
@@ -109,14 +110,40 @@ def relation(ro, rw, wo, ww):
     return 'read-straddles-end'
 
 
-def run_ir_history(sh, kind, ops, tag, origin):
-    """ops: list of ('st', off, width) / ('ld', off, width). Every load is checked when it happens."""
+READER = {'n': 0}
+
+
+def run_ir_history(sh, kind, ops, tag, origin, variant=''):
+    """ops: list of ('st', off, width) / ('ld', off, width). Every load is checked when it happens.
+    variant 'watch': the read-back expressions are built once, evaluated on the untouched machine, and the same objects are
+    evaluated again when their turn comes (a watch list); variant 'reader': the machine is built with a func_read callback over
+    the initial memory image (one valuation, whose memory the callback serves)."""
     ex, mi = exprgen.M()
-    m = new_machine(kind)
     envs = make_envs(tag)
+    if variant == 'reader':
+        envs = envs[:1]
+        from miasmx.expression.expression_eval_abstract import eval_abs
+        img = envs[0].copy()
+
+        def reader(machine, a):
+            READER['n'] += 1
+            return exprgen.Int(img.load(int(a.arg.arg) & 0xffffffff, a.size // 8), a.size)
+        m = eval_abs({}, func_read=reader)
+    else:
+        m = new_machine(kind)
+    kkey = kind + ('+' + variant if variant else '')
+    watch = {}
+    if variant == 'watch':
+        for idx, op in enumerate(ops):
+            if op[0] == 'ld':
+                watch[idx] = ex.ExprMem(addr(kind, op[1]), op[2])
+                try:
+                    m.eval_expr(watch[idx], {})
+                except Exception:
+                    pass
     concrete = [e.copy() for e in envs]       # concrete memories evolve with the stores
     stores = []
-    canon = (kind, tuple(ops))
+    canon = (kkey, tuple(ops))
     nontriv = False
     for idx, op in enumerate(ops):
         if op[0] == 'st':
@@ -138,8 +165,8 @@ def run_ir_history(sh, kind, ops, tag, origin):
                 sh.case(canon, True, cls='%s:%s' % (origin, kind))
                 rels = [relation(so, sw // 8, off, w // 8) for so, sw in stores]
                 over = [r for r in rels if r != 'disjoint']
-                sh.violation('ir/%s/store-raises:%s/%s' % (kind, type(e).__name__, over[-1] if over else 'disjoint'),
-                             'store %d bits at +%d after %s raised %r' % (w, off, stores, e), {'part': 'a', 'kind': kind, 'ops': [list(o) for o in ops]})
+                sh.violation('ir/%s/store-raises:%s/%s' % (kkey, type(e).__name__, over[-1] if over else 'disjoint'),
+                             'store %d bits at +%d after %s raised %r' % (w, off, stores, e), {'part': 'a', 'kind': kind, 'variant': variant, 'ops': [list(o) for o in ops]})
                 return
             for env, c in zip(envs, concrete):
                 a = irsem.evaluate(addr(kind, off), env)
@@ -151,18 +178,20 @@ def run_ir_history(sh, kind, ops, tag, origin):
             over = [r for r in rels if r != 'disjoint']
             if any(r != 'equal' for r in over):
                 nontriv = True
-            wit = {'part': 'a', 'kind': kind, 'ops': [list(o) for o in ops[:idx + 1]]}
+            wit = {'part': 'a', 'kind': kind, 'variant': variant, 'ops': [list(o) for o in (ops if variant == 'watch' else ops[:idx + 1])]}
             # mechanism class: relation of the read to the most recent write it overlaps
             relkey = over[-1] if over else 'disjoint'
+            if relkey == 'read-covers-write-inside' and len(over) == 1:
+                relkey = 'read-covers-one-write-inside'       # the known defect needs two inner cells; one inner cell is handled
             try:
                 with common.alarm_guard(120), budget():
-                    r = m.eval_expr(ex.ExprMem(addr(kind, off), w), {})
+                    r = m.eval_expr(watch[idx] if idx in watch else ex.ExprMem(addr(kind, off), w), {})
             except common.alarm_guard.Fired:
                 sh.counters['watchdog_fired'] += 1
                 return
             except Exception as e:
                 sh.case(canon, True, cls='%s:%s' % (origin, kind))
-                sh.violation('ir/%s/%s/wrong-readback' % (kind, relkey), '[raises:%s] load %d bits at +%d after stores %s raised %r' % (type(e).__name__, w, off, stores, e), wit)
+                sh.violation('ir/%s/%s/wrong-readback' % (kkey, relkey), '[raises:%s] load %d bits at +%d after stores %s raised %r' % (type(e).__name__, w, off, stores, e), wit)
                 return
             bad = None
             try:
@@ -185,7 +214,7 @@ def run_ir_history(sh, kind, ops, tag, origin):
                         break
             if bad:
                 sh.case(canon, True, cls='%s:%s' % (origin, kind))
-                sh.violation('ir/%s/%s/wrong-readback' % (kind, relkey), '[%s] after stores %s (offset, width) load of %d bits at +%d: %s' % (bad[0], stores, w, off, bad[1]), wit)
+                sh.violation('ir/%s/%s/wrong-readback' % (kkey, relkey), ('(%s variant) ' % variant if variant else '') + '[%s] after stores %s (offset, width) load of %d bits at +%d: %s' % (bad[0], stores, w, off, bad[1]), wit)
                 return
     sh.case(canon, nontriv, cls='%s:%s' % (origin, kind))
     if len(sh.samples) < 3 and nontriv:
@@ -735,6 +764,17 @@ def run_shard(shard, tier, seed):
         for (so, sw) in acc:
             for (lo, lw) in acc:
                 run_ir_history(sh, shard[1], [('st', so, sw), ('ld', lo, lw)], ('ir11', so, sw, lo, lw), 'ir1+1')
+                run_ir_history(sh, shard[1], [('st', so, sw), ('ld', lo, lw)], ('ir11w', so, sw, lo, lw), 'ir1+1', variant='watch')
+                if shard[1] == 'const':
+                    run_ir_history(sh, shard[1], [('st', so, sw), ('ld', lo, lw)], ('ir11r', so, sw, lo, lw), 'ir1+1', variant='reader')
+        if shard[1] == 'const':
+            # two narrow stores inside a wider read, through the reader-backed machine, and the same on a watch list
+            for (s1o, s1w) in acc[::3]:
+                for (s2o, s2w) in acc[1::4]:
+                    for (lo, lw) in ((0, 32), (1, 32), (0, 16), (4, 32), (2, 16), (3, 8)):
+                        run_ir_history(sh, 'const', [('st', s1o, s1w), ('st', s2o, s2w), ('ld', lo, lw), ('ld', lo, 16 if lw != 16 else 8)], ('ir22r', s1o, s1w, s2o, s2w, lo, lw), 'ir2+2', variant='reader')
+                        run_ir_history(sh, 'const', [('st', s1o, s1w), ('st', s2o, s2w), ('ld', lo, lw), ('ld', lo, 16 if lw != 16 else 8)], ('ir22w', s1o, s1w, s2o, s2w, lo, lw), 'ir2+2', variant='watch')
+        sh.counters['reader_callbacks_observed'] += READER['n']
         sh.extra['exhaustive'] = ['1 store + 1 load, base %s (576 histories)' % shard[1]]
     elif kind == 'ir21':
         _, bk, part, nparts, tr = shard
@@ -819,7 +859,7 @@ def finalize(merged, tier, seed):
 def replay(w):
     sh = common.Shard()
     if w.get('part') == 'a':
-        run_ir_history(sh, w['kind'], [tuple(o) for o in w['ops']], ('replay',), 'replay')
+        run_ir_history(sh, w['kind'], [tuple(o) for o in w['ops']], ('replay',), 'replay', variant=w.get('variant', ''))
     else:
         isa_case(sh, w['lines'], ('replay',), 'replay', rep=w.get('rep', False))
     return [(v['key'], v['detail']) for v in sh.violations]
